@@ -1309,11 +1309,13 @@ class SQLModel:
         )
         # order/limit columns
         if subsql.terms is not None:
-            subsql.terms = {
+            narrowed_terms = {
                 k: subsql.terms[k]
                 for k in select_columns_node.column_selection
                 if k in subusing
             }
+            if len(narrowed_terms) > 0:  # a step with no terms would be rendered as SELECT *
+                subsql.terms = narrowed_terms
         else:
             subsql.terms = []
         self._restrict_declared_term_dependencies(subsql)
@@ -1354,11 +1356,13 @@ class SQLModel:
             db_model=self, using=subusing, temp_id_source=temp_id_source
         )
         # /limit columns
-        subsql.terms = {
+        narrowed_terms = {
             k: subsql.terms[k]
             for k in using
             if k not in drop_columns_node.column_deletions
         }
+        if len(narrowed_terms) > 0:  # a step with no terms would be rendered as SELECT *
+            subsql.terms = narrowed_terms
         self._restrict_declared_term_dependencies(subsql)
         return subsql
 
